@@ -184,17 +184,20 @@ def c07(tier, seed):
     if tier == "quick":
         hs = [0, 1, 2, 3]
         for h in hs:
-            jobs.append(dict(kind="cp", exhaustive_n=[2, 3, 4, 5], part=0, nparts=1, random_cases=40, seed=seed * 97 + h, hashseed=h,
-                             variants={"target": "one", "root": 1, "exclude": 1, "config": 1, "debug": 1, "compose": 1}))
-        ex = "all 1098 DAGs on 2..5 topologically numbered nodes under PYTHONHASHSEED 0..3"
+            jobs.append(dict(kind="cp", exhaustive_n=[2, 3, 4], part=0, nparts=1, random_cases=30, seed=seed * 97 + h, hashseed=h,
+                             variants={"target": "one", "root": 1, "exclude": 1, "config": 1, "debug": 1, "compose": 1, "retry": 1}))
+            for q in range(2):
+                jobs.append(dict(kind="cp", exhaustive_n=[5], part=2 * h + q, nparts=8, random_cases=0, seed=seed * 97 + 10 + 2 * h + q, hashseed=h,
+                                 variants={"target": "one", "root": 1, "exclude": 1, "config": 1, "debug": 1, "compose": 1, "retry": 1}))
+        ex = "all 74 DAGs on 2..4 topologically numbered nodes under each of PYTHONHASHSEED 0..3, all 1024 DAGs on 5 nodes (each under one of the 4 hash seeds)"
     else:
         hs = list(range(16))
         for h in hs:
             jobs.append(dict(kind="cp", exhaustive_n=[2, 3, 4, 5], part=0, nparts=1, random_cases=300, seed=seed * 97 + h, hashseed=h,
-                             variants={"target": "all", "root": 1, "exclude": 1, "config": 1, "debug": 1, "compose": 1}))
+                             variants={"target": "all", "root": 1, "exclude": 1, "config": 1, "debug": 1, "compose": 1, "retry": 1}))
         for p in range(16):
             jobs.append(dict(kind="cp", exhaustive_n=[6], part=p, nparts=16, random_cases=0, seed=seed * 97 + 100 + p, hashseed=(p * 5 + 1) % 16,
-                             variants={"target": "one", "root": 1, "exclude": 1, "config": 1, "debug": 1, "compose": 1}))
+                             variants={"target": "one", "root": 1, "exclude": 1, "config": 1, "debug": 1, "compose": 1, "retry": 1}))
         ex = "all DAGs on 2..5 nodes under 16 hash seeds with every single-target executor, all 32768 DAGs on 6 nodes (one hash seed each)"
     return dict(
         jobs=jobs, level="exploration", exhaustive=True,
